@@ -210,7 +210,8 @@ class TokenParser(Parser):
                 tokens.consume()
                 break
 
-            field = self._parse_field(tokens)
+            # A count that names an earlier field is evaluated when parsing, also when a constant has that name
+            field = self._parse_field(tokens, {f._name for f in fields})
             fields.append(field)
 
         if register:
@@ -257,7 +258,7 @@ class TokenParser(Parser):
         d = ast.literal_eval(m.group(2))
         self.cstruct.lookups[m.group(1)] = {self.cstruct.consts[k]: v for k, v in d.items()}
 
-    def _parse_field(self, tokens: TokenConsumer) -> Field:
+    def _parse_field(self, tokens: TokenConsumer, scope: set[str] | None = None) -> Field:
         type_ = None
         if tokens.next == self.TOK.IDENTIFIER:
             type_ = self.cstruct.resolve(self._identifier(tokens))
@@ -271,12 +272,14 @@ class TokenParser(Parser):
             raise ParserError(f"line {self._lineno(tokens.next)}: expected name")
         nametok = tokens.consume()
 
-        type_, name, bits = self._parse_field_type(type_, nametok.value)
+        type_, name, bits = self._parse_field_type(type_, nametok.value, scope)
 
         tokens.eol()
         return Field(name.strip(), type_, bits)
 
-    def _parse_field_type(self, type_: type[BaseType], name: str) -> tuple[type[BaseType], str, int | None]:
+    def _parse_field_type(
+        self, type_: type[BaseType], name: str, scope: set[str] | None = None
+    ) -> tuple[type[BaseType], str, int | None]:
         pattern = self.TOK.patterns[self.TOK.NAME]
         # Dirty trick because the regex expects a ; but we don't want it to be part of the value
         d = pattern.match(name + ";").groupdict()
@@ -298,10 +301,11 @@ class TokenParser(Parser):
                     count = None
                 else:
                     count = Expression(self.cstruct, count)
-                    try:
-                        count = count.evaluate()
-                    except Exception:
-                        pass
+                    if not (scope and scope.intersection(count.tokens)):
+                        try:
+                            count = count.evaluate()
+                        except Exception:
+                            pass
 
                 if issubclass(type_, BaseArray) and count is None:
                     raise ParserError("Depth required for multi-dimensional array")
